@@ -223,26 +223,34 @@ func VerifSession() {
 		s.tseq, s.tid, s.tbeh = vLen("tseq", 0, n-1), vLen("tid", 0, 2), vLen("tbeh", 0, 3)
 	}
 	gated := s.tbeh == 3 && s.tid < 2
+	// FRAG: the server hangs up in the middle of things - at the end the last script line arrives
+	// without its CR-LF and the next read reports EOF
+	frag := vParam("FRAG", 0) == 1
 	stream := ""
 	for i := 0; i < n; i++ {
-		stream += vScript[i] + "\r\n"
+		if !frag || i < n-1 {
+			stream += vScript[i] + "\r\n"
+		}
 	}
+	mkWire := vNewLiveWire
 	var w *vWire
 	nchunk := 3
 	if slim {
 		nchunk = 0
+	} else if frag {
+		nchunk = 1
 	}
 	switch vLen("chunking", 0, nchunk) {
 	case 0:
-		w = vNewLiveWire(stream)
+		w = mkWire(stream)
 	case 1:
-		w = vNewLiveWire(stream[:7], stream[7:])
+		w = mkWire(stream[:7], stream[7:])
 	case 2:
 		k := len(vScript[0]) + 1 // between CR and LF of the first line
-		w = vNewLiveWire(stream[:k], stream[k:])
+		w = mkWire(stream[:k], stream[k:])
 	case 3:
 		k := len(vScript[0]) + 2 // exactly at a line boundary
-		w = vNewLiveWire(stream[:k], stream[k:])
+		w = mkWire(stream[:k], stream[k:])
 	}
 	d := &vDialer{wire: w}
 	vInstallDialer(d)
@@ -304,7 +312,11 @@ func VerifSession() {
 	if !early {
 		vRunPending() // everything the server sent is processed; the goroutines wait for more
 		s.mu.Lock()
-		for seq := 0; seq < n; seq++ {
+		nd := n // lines delivered so far
+		if frag {
+			nd = n - 1
+		}
+		for seq := 0; seq < nd; seq++ {
 			for id := 0; id < 3; id++ {
 				if id == 2 && s.panics {
 					continue // a stuck background handler may leave its siblings of later lines unentered? no: checked below
@@ -320,9 +332,17 @@ func VerifSession() {
 		s.mu.Unlock()
 	}
 	var cw sync.WaitGroup
-	switch vLen("end", 0, 2) {
+	endHi := 2
+	if frag {
+		endHi = 0 // (the other ways to end a session are the subject of the configurations without FRAG)
+	}
+	switch vLen("end", 0, endHi) {
 	case 0: // the server closes the connection
-		w.Close()
+		if frag {
+			w.feedEOF(vScript[n-1])
+		} else {
+			w.Close()
+		}
 	case 1: // the user closes
 		cw.Add(1)
 		go func() { conn.Close(); cw.Done() }()
@@ -330,7 +350,11 @@ func VerifSession() {
 		cw.Add(2)
 		go func() { conn.Close(); cw.Done() }()
 		go func() { conn.Close(); cw.Done() }()
-		w.Close()
+		if frag {
+			w.feedEOF(vScript[n-1])
+		} else {
+			w.Close()
+		}
 	}
 	vRunPending()
 	if gated {
